@@ -14,7 +14,9 @@ class C10(core.Prop):
     assumptions = []
 
     def strategy(self, tier):
-        return faultgen.programs(tier)
+        if tier == "quick":
+            return faultgen.programs(tier)
+        return faultgen.programs_with_pairs()
 
     def check(self, case):
         oc = core.Outcome()
@@ -36,21 +38,47 @@ class C10(core.Prop):
             oc.bad("fault-free:" + s, "in the fault-free run: " + m)
         if ref.deadlock is not None:
             labels.add("fault-free-run-deadlocks")
-        scheds = case.get("faults") or faultgen.enumerate_faults(prog, base)
+        prog = {k: v for k, v in prog.items() if k != "pairs"}
+        scheds = case.get("faults") or faultgen.enumerate_faults(prog, base, cap=160 if case.get("pairs") else 64)
         seen = set()
         nhit = 0
-        for faults in scheds:
-            rp, viol, log = faultgen.check_one(prog, faults, ref)
+        singles = {}
+
+        def one(faults, ref_rp):
+            nonlocal nhit
+            rp, viol, log = faultgen.check_one(prog, faults, ref_rp)
             oc.evals += 1
             if rp is not None:
-                labels |= rp.labels
+                labels.update(rp.labels)
                 labels.add("how:" + faults[-1]["how"])
+                if len(faults) > 1:
+                    labels.add("pair:" + ("back-on" if faults[-1]["on"] else "second-failure"))
                 if rp.hit_with_waiter:
                     nhit += 1
             for s, m in viol:
                 if s not in seen:
                     seen.add(s)
                     oc.bad(s, m)
+            return rp, log
+        for k, faults in enumerate(scheds):
+            if len(faults) == 1:
+                singles[k] = one(faults, ref)
+            else:                       # an explicit schedule of a replay file: the reference of the last fault is the run without it
+                rp1, viol1, log1 = faultgen.check_one(prog, faults[:-1], ref)
+                oc.evals += 1
+                if rp1 is not None:
+                    one(faults, [ref, rp1])
+        # generated pairs (thorough): a second failure, or the failed resource comes back, at an event date of the single-fault run
+        for spec in case.get("pairs", []):
+            if not singles:
+                break
+            k = sorted(singles)[spec["first"] % len(singles)]
+            rp1, log1 = singles[k]
+            if rp1 is None:
+                continue
+            pair = faultgen.make_pair(prog, scheds[k][0], log1, spec)
+            if pair is not None:
+                one(pair, [ref, rp1])
         oc.labels = sorted(labels)
         oc.nontrivial = nhit > 0
         oc.info = {"runs": oc.evals, "runs_hitting_a_waiter": nhit}
